@@ -45,7 +45,19 @@ var (
 	ErrMissingSequenceDeltas = errors.New("oxia: sequential key operation missing some sequence deltas")
 	ErrSequenceDeltaIsZero   = errors.New("oxia: sequential key operation requires first delta do be > 0")
 	ErrNotificationsDisabled = errors.New("oxia: notifications disabled")
+	ErrInvalidSequenceKey    = errors.New("oxia: existing key is not a valid key of the sequence")
 )
+
+// IsInvalidRequestError tells whether ProcessWrite has refused a write request because of the
+// request itself (given the current content of the database), as opposed to a failure of the
+// storage. The outcome is the same on every replica and the database is left untouched, so the
+// request can simply be skipped when it is found in the log.
+func IsInvalidRequestError(err error) bool {
+	return errors.Is(err, ErrMissingPartitionKey) ||
+		errors.Is(err, ErrMissingSequenceDeltas) ||
+		errors.Is(err, ErrSequenceDeltaIsZero) ||
+		errors.Is(err, ErrInvalidSequenceKey)
+}
 
 const (
 	commitOffsetKey        = constant.InternalKeyPrefix + "commit-offset"
@@ -257,10 +269,14 @@ func (d *db) ProcessWrite(b *proto.WriteRequest, commitOffset int64, timestamp u
 		}
 	}
 
+	lastVersionId := d.versionIdTracker.Load()
 	batch := d.kv.NewWriteBatch()
 	notifications, res, err := d.applyWriteRequest(b, batch, commitOffset, timestamp, updateOperationCallback)
 	if err != nil {
-		return nil, err
+		// Nothing of this request is applied: do not leave any trace in the version ids either,
+		// since a replica that restarts reads them back from the last applied request
+		d.versionIdTracker.Store(lastVersionId)
+		return nil, multierr.Append(err, batch.Close())
 	}
 
 	if err := d.addASCIILong(commitOffsetKey, commitOffset, batch, timestamp); err != nil {
